@@ -43,6 +43,7 @@ def cases(r, n, ops, maxlimbs=6):
             c = r.random()
             if c < 0.8: b = from_val(r.choice([0, 1, 63, 64, 65, 127, 128, 129, r.randrange(0, 300)]), r)
             elif c < 0.9: b = (False, [r.randrange(0, 200)] + [0] * r.randint(1, 2))
+            else: b = gens.from_val(2**64 + r.randrange(0, 2**64), r)      # beyond usize: must be rejected
         elif op in ("try_as_usize", "lshift", "rshift", "is_zero", "is_even"):
             b = None
         elif op == "root_n":
